@@ -18,6 +18,8 @@ ASSUMPTIONS = [
     "rows are compared right-stripped and trailing blank rows are ignored (Progress pads its frame to its historical maximum height by design)",
     "after a render that raised inside print/log the text of that call may or may not have been written (both are accepted); everything printed successfully must stay",
     "log() uses log_path=False and a constant datetime",
+    "a print()/log() whose own renderable raises (the displayed renderable being fine) shows nothing of that call; the frame on the screen afterwards is the one that was there or the one a print draws now (both accepted), and every later draw is fully specified again",
+    "Progress rows never wrap: a task description is cut to the terminal width - 5 before it is set",
 ]
 
 WORDS = ["alpha", "beta", "gamma", "delta", "line", "x", "task done", "0123456789", "the quick brown fox jumps over the lazy dog", "ok"]
@@ -40,6 +42,27 @@ class Boom(BaseException):
 
 class BoomE(Boom, Exception):
     pass
+
+
+class UserRaiser:
+    """An ordinary renderable handed to print()/log() by the program (not the displayed one): yields some lines, then raises."""
+
+    def __init__(self, lines, exc):
+        self.lines = lines
+        self.exc = exc
+
+    def __rich_console__(self, console, options):
+        from rich.text import Text
+
+        for l in self.lines:
+            yield Text(l)
+        raise self.exc("printed renderable")
+
+
+def raising_print():
+    # ["print_raises", print|log, lines yielded before the raise, BaseException?, caught by the program?, objects printed before it in the same call]
+    return st.tuples(st.just("print_raises"), st.sampled_from(["print", "print", "log"]), st.lists(st.sampled_from(WORDS), max_size=2), st.sampled_from([False, False, True]),
+                     st.sampled_from([True, True, True, False]), st.lists(st.sampled_from(WORDS), max_size=1))
 
 
 class Fault:
@@ -96,7 +119,7 @@ def frame_lines(maxh):
     return st.one_of(st.lists(marker, min_size=0, max_size=3), st.lists(marker, min_size=0, max_size=maxh))
 
 
-def live_ops(H, tall):
+def live_ops(H, tall, extra=()):
     fl = frame_lines(H + 3 if tall else H)
     uncropped = st.tuples(st.just("print"), st.lists(st.sampled_from(WORDS), min_size=1, max_size=1), st.sampled_from([{"soft_wrap": True}, {"crop": False}, {"soft_wrap": True, "crop": False},
                                                                                                                                     # width= beyond the terminal (it is limited to the terminal's width), with and without cropping
@@ -104,42 +127,46 @@ def live_ops(H, tall):
     return st.one_of(
         st.tuples(st.just("print"), text_lines()), st.tuples(st.just("print"), text_lines()), st.tuples(st.just("log"), st.sampled_from(WORDS)), uncropped,
         st.tuples(st.just("update"), fl, st.booleans()), st.tuples(st.just("update"), fl, st.booleans()), st.tuples(st.just("update"), fl, st.booleans(), st.just(True)), st.tuples(st.just("refresh")),
-        st.tuples(st.just("stdout"), st.sampled_from(["out one\n", "a\nb\n", "partial", "tail\n"])), st.tuples(st.just("stop")), st.tuples(st.just("start")),
+        st.tuples(st.just("stdout"), st.sampled_from(["out one\n", "a\nb\n", "partial", "tail\n"])), st.tuples(st.just("stop")), st.tuples(st.just("start")), *extra
     ).map(list)
 
 
-def progress_ops():
+def progress_ops(extra=()):
     ti = st.integers(0, 5)
     return st.one_of(
         st.tuples(st.just("print"), text_lines()), st.tuples(st.just("log"), st.sampled_from(WORDS)),
         st.tuples(st.just("add"), st.sampled_from(["job", "copy", "build", "t"]), st.booleans()), st.tuples(st.just("add"), st.sampled_from(["job", "copy"]), st.just(True)),
         st.tuples(st.just("advance"), ti, st.integers(1, 3)), st.tuples(st.just("visible"), ti, st.booleans(), st.booleans()), st.tuples(st.just("remove"), ti),
-        st.tuples(st.just("refresh")), st.tuples(st.just("stop")), st.tuples(st.just("start")),
+        st.tuples(st.just("refresh")), st.tuples(st.just("stop")), st.tuples(st.just("start")), *extra
     ).map(list)
 
 
-def status_ops():
+def status_ops(extra=()):
     return st.one_of(st.tuples(st.just("print"), text_lines()), st.tuples(st.just("log"), st.sampled_from(WORDS)), st.tuples(st.just("status"), st.sampled_from(["working", "busy", "x"])),
-                     st.tuples(st.just("refresh")), st.tuples(st.just("stop")), st.tuples(st.just("start"))).map(list)
+                     st.tuples(st.just("refresh")), st.tuples(st.just("stop")), st.tuples(st.just("start")), *extra).map(list)
 
 
 @st.composite
-def history(draw, with_faults):
-    kind = draw(st.sampled_from(["live", "live", "progress", "status"]))
+def history(draw, with_faults, user_faults=False, shapes=False):
+    # user_faults: the op alphabet also holds prints / logs of a renderable of the program's own that raises (several copies: about one op in four)
+    extra = (raising_print(),) * (4 if user_faults else 0)
+    # shapes: Progress only, and a task's description can be replaced by a longer or shorter one (frames that get wider / narrower as well as taller / shorter)
+    describe = (st.tuples(st.just("describe"), st.integers(0, 5), st.sampled_from(["t", "job", "a much longer description", "copy", "unpacking"]), st.booleans()),) * (2 if shapes else 0)
+    kind = draw(st.sampled_from(["live", "live", "progress", "status"])) if not shapes else "progress"
     W = draw(st.integers(10, 60))
     H = draw(st.integers(4, 12))
     overflow = draw(st.sampled_from(["crop", "ellipsis", "visible"]))
     transient = draw(st.booleans())
-    n = draw(st.integers(1, 40 if not with_faults else 14))
+    n = draw(st.integers(1, 40 if not (with_faults or user_faults) else 14))
     shrink = draw(st.one_of(st.none(), st.none(), st.integers(4, 8))) if (kind == "live" and not with_faults) else None
     if shrink is not None and shrink >= H:
         shrink = None
     if kind == "live":
-        ops = draw(st.lists(live_ops(shrink or H, overflow != "visible"), min_size=1, max_size=n))
+        ops = draw(st.lists(live_ops(shrink or H, overflow != "visible", extra), min_size=1, max_size=n))
     elif kind == "progress":
-        ops = draw(st.lists(progress_ops(), min_size=1, max_size=n))
+        ops = draw(st.lists(progress_ops(extra + describe), min_size=1, max_size=n))
     else:
-        ops = draw(st.lists(status_ops(), min_size=1, max_size=n))
+        ops = draw(st.lists(status_ops(extra), min_size=1, max_size=n))
     spec = {"kind": kind, "W": W, "H": H, "overflow": overflow, "transient": transient, "ops": ops, "initial": draw(frame_lines(min(3, (shrink or H) - 1))), "redirect": draw(st.booleans()),
             "redirect_err": draw(st.booleans()), "disable": kind == "progress" and draw(st.sampled_from([False, False, False, True])),
             "shrink": shrink}
@@ -186,6 +213,8 @@ class Runner:
         self.tall_transient_stop = False
         self.just_drew = False
         self.opi = 0
+        self.drawn_alt = None
+        self.escaped = False   # an exception of the program's own print left the live block: the history ends with the stop() of the with statement
         self.orig_stdout, self.orig_stderr = sys.stdout, sys.stderr
 
     # ---------------------------------------------------------------- construction
@@ -285,6 +314,16 @@ class Runner:
             while w and w[-1] == "":
                 w.pop()
             wants.append(w)
+        if self.drawn_alt is not None and got not in wants:
+            # a second frame is acceptable after this op (see apply_user_fault): if the screen shows it, it is the frame on the screen from now on
+            alts = []
+            for fx in self.fixed:
+                w = [r.rstrip() for r in fx + self.drawn_alt]
+                while w and w[-1] == "":
+                    w.pop()
+                alts.append(w)
+            if got in alts:
+                wants, self.drawn, self.last_frame_h = alts, self.drawn_alt, len(self.drawn_alt)
         if got not in wants:
             sig = "C10/screen/%s-%s%s" % (self.kind, op[0], "-transient" if self.transient and op[0] == "stop" else "")
             if self.tall_transient_stop:
@@ -306,6 +345,8 @@ class Runner:
         d = self.display
         top = self.region_top()
         printed_text = None
+        if name == "print_raises":
+            return self.apply_user_fault(op, top)
         try:
             if name == "print" and not op[1]:
                 printed_text = ""   # print() without arguments: one empty line
@@ -364,15 +405,22 @@ class Runner:
                 d.add_task(op[1], total=10, visible=op[2])
                 # task identity follows the public task list (a failed add_task does not advance the task index, so ids can be reused)
                 self.tasks = [[t.id, t.description, int(t.completed), t.visible] for t in d.tasks]
-            elif name in ("advance", "visible", "remove"):
+            elif name in ("advance", "visible", "remove", "describe"):
                 if not self.tasks:
                     return True
                 t = self.tasks[op[1] % len(self.tasks)]
-                if name == "advance":
+                if name == "describe":
+                    desc = op[2][:self.W - 5].strip()   # the row stays on one line of the table (no wrapping inside the frame)
+                    t[1] = desc
+                    d.update(t[0], description=desc, refresh=op[3])
+                    self.ctx.cls("task-description-changed")
+                    if not op[3]:
+                        return self.sync(op, top)
+                elif name == "advance":
                     d.advance(t[0], op[2])
                     t[2] += op[2]
                     return self.sync(op, top)
-                if name == "visible":
+                elif name == "visible":
                     t[3] = op[2]  # the flag is set before the optional refresh (which may raise in a fault run)
                     d.update(t[0], visible=op[2], refresh=op[3])
                     if not op[3]:
@@ -461,7 +509,7 @@ class Runner:
             self.fixed = [fx + rows for fx in self.fixed]
             if self.started and self.last_frame_h is not None:
                 self.between = True
-        if self.started and name in ("print", "log", "stdout", "refresh", "update", "status", "add", "visible"):
+        if self.started and name in ("print", "log", "stdout", "refresh", "update", "status", "add", "visible", "describe"):
             if name == "add" and not self.started:
                 pass
             self.drawn = self.frame_now(refreshed=name not in ("print", "log", "stdout"))
@@ -473,6 +521,43 @@ class Runner:
                 self.between = False
             self.last_frame_h = h
         return self.sync(op, top)
+
+    def apply_user_fault(self, op, top):
+        """print()/log() of a renderable of the program's own that raises part-way (the displayed renderable is fine). The exception must reach the program,
+        nothing of the failed call is shown, and the display goes on: the screen is still printed rows + a complete frame - either the frame that was on the
+        screen (nothing was written) or the frame as a print draws it now. Later ops are compared as usual, so whatever the failed call left behind in the
+        display's memory (height of the frame on screen, ...) shows at the next draw."""
+        how, lines, base, catch, before = op[1], op[2], op[3], op[4], op[5]
+        exc = Boom if base else BoomE
+        d = self.display
+        raised = None
+        for con in (d.console, self.twin):
+            # the same call on the plain console keeps its state (log time column) in step; it writes nothing either
+            objs = list(before) + [UserRaiser(lines, exc)]
+            try:
+                (con.log if how == "log" else con.print)(*objs)
+            except Boom as e:
+                if con is d.console:
+                    raised = e
+        self.twin_new_rows()
+        if raised is None:
+            self.ctx.violation("propagate", "C10/fault/swallowed", "the exception raised by a renderable handed to console.%s() did not propagate (history %r)" % (how, self.spec["ops"][:self.opi + 1]))
+            return False
+        self.ctx.cls("printed-renderable-raised", "printed-renderable-raised-%s" % ("caught" if catch else "leaves-the-block"))
+        if not catch:
+            self.escaped = True
+        if self.started and self.drawn is not None:
+            # the frame a draw would produce now (an update() without refresh, or an edit in place, may be pending)
+            alt = self.frame_now(refreshed=False)
+            if len(alt) != len(self.drawn):
+                self.nontrivial = True
+                self.ctx.cls("printed-renderable-raised-with-a-pending-frame-of-another-height")
+            if alt != self.drawn:
+                self.drawn_alt = alt
+        try:
+            return self.sync(op, top)
+        finally:
+            self.drawn_alt = None
 
     def sync_prefix(self, op, region_top):
         """After a draw that raised inside start()/stop(): only the permanent rows and the cursor bound are checked."""
@@ -579,6 +664,66 @@ class Histories(Part):
                 if not ok:
                     return
             if not r.restored("at-the-end"):
+                return
+            if r.nontrivial:
+                ctx.nontrivial = True
+            ctx.cls(spec["kind"], "transient" if r.transient else "persistent")
+        finally:
+            r.cleanup()
+
+
+class ProgressShapes(Histories):
+    name = "progress-shapes"
+    rule = ("Progress histories as in `histories` (<= 40 ops, same options / sizes, tasks present before start) whose op alphabet also holds update(task, description=..., refresh?) with "
+            "descriptions of 1 to 25 characters (cut so that a row never wraps), so that successive frames differ in width as well as in height, in every combination "
+            "(taller and narrower, shorter and wider, ...); compared exactly as in `histories`; non-trivial = a print between two draws of frames of different height")
+    budget = {"quick": (16, 100), "thorough": (16, 2000)}
+    chunk = 100
+
+    def strategy(self, tier):
+        return history(False, shapes=True)
+
+
+class PrintFaults(Part):
+    name = "print-faults"
+    rule = ("histories as in `histories` (<= 14 ops, same displays / options / sizes) whose op alphabet also holds, about one op in four, console.print / console.log of a renderable "
+            "of the program's own that yields 0-2 lines and then raises (Exception or bare BaseException; alone or after an ordinary object in the same call), while the displayed "
+            "renderable is fine - possibly with an update(frame) without refresh or an edit in place pending; the exception is caught by the program, which goes on, "
+            "or leaves the live block, which then ends with the stop() of the with statement. Required: the exception reaches the program; right after the failed call the screen is "
+            "the printed rows + a complete frame (the one that was on the screen, or the one a print draws now), nothing of the failed call, cursor not above the live region; "
+            "every later op and the final stop are compared exactly as in `histories` (printed rows + frame of the last draw, nothing if transient), and stdout/stderr, hook, "
+            "started flag and cursor are restored at the end; non-trivial = a print raised while the frame a draw would produce had another height than the frame on the screen")
+    budget = {"quick": (16, 200), "thorough": (16, 3000)}
+    chunk = 100
+
+    def strategy(self, tier):
+        return history(False, user_faults=True)
+
+    def check(self, spec, ctx):
+        r = Runner(spec, ctx)
+        try:
+            sut(r.build)
+            ops = [["start"]] + list(spec["ops"])
+            for i, op in enumerate(ops):
+                r.opi = max(0, i - 1)
+                try:
+                    ok = r.apply(list(op))
+                except (Boom, SutError):
+                    raise
+                except Exception as e:  # noqa
+                    raise SutError(e)
+                if not ok:
+                    return
+                if r.escaped:
+                    break   # the exception left the block: __exit__ of the display follows
+            try:
+                if not r.apply(["stop"]):
+                    return
+            except (Boom, SutError):
+                raise
+            except Exception as e:  # noqa
+                raise SutError(e)
+            if not r.restored("in-a-print" if r.escaped else "at-the-end"):
                 return
             if r.nontrivial:
                 ctx.nontrivial = True
@@ -790,4 +935,4 @@ class TrackGenerator(Part):
         ctx.cls("loop-" + spec["how"])
 
 
-PARTS = [Histories(), Faults(), TrackGenerator()]
+PARTS = [Histories(), Faults(), PrintFaults(), ProgressShapes(), TrackGenerator()]
